@@ -59,13 +59,13 @@ def run(rep, work, tier, seed):
     # sync scopes, updates and several nested blocks left by one Exception / BaseException up to a catch-all: Scopes.tla
     # (Try / Raise with the action property Restored), replayed on a single task
     from props.scopes_common import ScopesDriver
-    sc = dict(NTasks=1, Types=["A", "B"], Vals=[1, 2], MaxDepth=3, MaxOps=4 if tier == "quick" else 5, SupKind="tiny", Prep=False, Bug="none")
+    sc = dict(NTasks=1, Types=["A", "B"], Vals=[1, 2], MaxDepth=3, MaxOps=4 if tier == "quick" else 5, SupKind="tiny", Prep=False, Threads=False, Bug="none")
     leg_m(rep, work, "Scopes", f"scopes_mc_{tier}", cfg_text(sc, spec="Spec", invariants=["TypeOK", "LexicalLookup"],
                                                               properties=["Restored"]), expect_actions=["Try", "Raise", "Leave"])
     leg_r(rep, work, "Scopes", f"scopes_conf_{tier}", cfg_text(sc, invariants=["TypeOK"]), lambda: ScopesDriver(("A", "B")), world=True)
     # block objects prepared in one place and entered in another; a refused second entering of an async scope object
     # leaves the surrounding context (state, metrics scope, task group) as it was
-    sp = dict(sc, MaxDepth=2, MaxOps=4 if tier == "quick" else 5, Prep=True)
+    sp = dict(sc, MaxDepth=2, MaxOps=4 if tier == "quick" else 5, Prep=True, Threads=False)
     leg_m(rep, work, "Scopes", f"scopes_prep_mc_{tier}", cfg_text(sp, spec="Spec", invariants=["TypeOK", "LexicalLookup"],
                                                                    properties=["Restored", "Isolation"]),
           expect_actions=["Prepare", "EnterPrepared", "ReEnter"])
@@ -80,8 +80,8 @@ def run(rep, work, tier, seed):
     # the scope forest with scopes that outlive their ancestors (Metrics.tla, C09's configurations, replayed here too)
     from props.metrics_common import MetricsDriver
     minv = ["TypeOK", "CbAtMostOnce", "CbAfterSubtree", "ExitNeverFails"]
-    for nm, conf in (("metrics_wide", dict(NTasks=3, N=3, MaxOps=7, MaxRec=0, MaxT=0, MTypes=["Cat"], Kinds=["s"], Prep=False, Bug="none")),
-                     ("metrics", dict(NTasks=2, N=3, MaxOps=6, MaxRec=0, MaxT=0, MTypes=["Cat"], Kinds=["s", "a"], Prep=False, Bug="none"))):
+    for nm, conf in (("metrics_wide", dict(NTasks=3, N=3, MaxOps=7, MaxRec=0, MaxT=0, MTypes=["Cat"], Kinds=["s"], Prep=False, Threads=False, Bug="none")),
+                     ("metrics", dict(NTasks=2, N=3, MaxOps=6, MaxRec=0, MaxT=0, MTypes=["Cat"], Kinds=["s", "a"], Prep=False, Threads=False, Bug="none"))):
         leg_r(rep, work, "Metrics", f"{nm}_{tier}", cfg_text(conf, invariants=minv), lambda: MetricsDriver(["Cat"]),
               internal=["RunCb", "Finish"], world=True)
     rep.assumptions += [
